@@ -182,7 +182,8 @@ def targets : List (String × List (Feature × List Feature)) := [
   ("BOUNDED_TYPES_REMOVING", [("BOUNDED_TYPES", [])]),
   ("STATE_INVARIANTS_REMOVING", [("STATE_INVARIANTS", [])]),
   ("INTERPRETED_FUNCTIONS_REMOVING",
-    [("INTERPRETED_FUNCTIONS_IN_CONDITIONS", []), ("INTERPRETED_FUNCTIONS_IN_DURATIONS", []),
+    -- the condition of a conditional effect is not rewritten
+    [("INTERPRETED_FUNCTIONS_IN_CONDITIONS", ["CONDITIONAL_EFFECTS"]), ("INTERPRETED_FUNCTIONS_IN_DURATIONS", []),
      ("INTERPRETED_FUNCTIONS_IN_BOOLEAN_ASSIGNMENTS", []), ("INTERPRETED_FUNCTIONS_IN_NUMERIC_ASSIGNMENTS", []),
      ("INTERPRETED_FUNCTIONS_IN_OBJECT_ASSIGNMENTS", [])]),
   ("TIMED_TO_SEQUENTIAL", [("CONTINUOUS_TIME", []), ("DISCRETE_TIME", []), ("TIMED_EFFECTS", []), ("TIMED_GOALS", []),
